@@ -103,7 +103,7 @@ func keyset(c *an.Ctx, scope []*ssa.Function, prop string) {
 		}
 	}
 	c.Count("KEYSET", n)
-	c.Floor("KEYSET", 12)
+	c.Floor("KEYSET", 6)
 }
 
 func short(s string) string {
@@ -170,7 +170,7 @@ func nilpGuardedMaps(c *an.Ctx, scope []*ssa.Function, prop string) {
 		}
 	}
 	c.Count("NILP", n)
-	c.Floor("NILP", 8)
+	c.Floor("NILP", 4)
 }
 
 // derefUses returns the instructions that dereference pointer value v
